@@ -175,7 +175,7 @@ func FuzzC10(f *testing.F) {
 		mask := p.intn(32)
 		c.Cfg = ref.OCRACfg{Raw: string(c.S[3]), Hash: int(p.byte()), Digits: int(int8(p.byte())), C: mask&1 != 0, Q: mask&2 != 0, P: mask&4 != 0, S: mask&8 != 0, T: mask&16 != 0,
 			QFormat: int(int8(p.byte())), PHash: int(int8(p.byte())), TimeStep: int(int8(p.byte())), SessionNN: -1}
-		c.SuiteBy, c.NilP, c.URLKind, c.Hostile = p.intn(4), p.byte()&7 == 0, p.intn(3), true
+		c.SuiteBy, c.NilP, c.URLKind, c.Hostile = p.intn(4), p.byte()&7 == 0, p.intn(5), true
 		if p.byte()&1 == 1 {
 			// usable configuration and admissible inputs with ONE hostile ingredient (as in the rapid generator)
 			c.Cfg.Hash, c.Cfg.Digits, c.Cfg.QFormat, c.Cfg.PHash, c.Cfg.TimeStep = c.Algo%3, 4+c.Digits%7, 1+c.Digits%6, 1+c.Algo%3, 1
